@@ -3,7 +3,11 @@ package c07
 
 import (
 	"bytes"
+	"crypto/sha1"
+	"encoding/base64"
+	"encoding/json"
 	"fmt"
+	"io"
 	"net"
 	"net/http"
 	"strings"
@@ -19,7 +23,7 @@ const rule = "streams of 10-60 healthy concurrent requests (GET/POST, bodies up 
 	"fault kinds x injection points: pending list (5xx, garbage JSON, truncated reply, dropped connection, non-HTTP reply), request fetch (connection dropped on every attempt / on the first only, non-HTTP reply, reset mid-body, 404, 5xx x1-3, truncated or garbled " +
 	"wire request, missing start-time header, unparsable start time), backend (accept-then-close before/after reading, garbage status line, " +
 	"headers without end, bad chunk size, short Content-Length, reset mid-body, 2 MiB header, 1xx flood), upload (5xx x1-3, connection reset), " +
-	"shim endpoints (malformed JSON, wrong JSON types, unknown IDs, 1 MiB bodies on open/data/poll/close), plus a second agent whose backend " +
+	"shim endpoints (malformed JSON, wrong JSON types, unknown IDs, 1 MiB bodies on open/data/poll/close, and a real session fed messages of odd shapes), plus a second agent whose backend " +
 	"port is closed (502 expected); agent binary runs with shim and session tracking on; invariant over the history: agent alive, no " +
 	"race/fatal/panic, every healthy request uploaded once with its own content; non-trivial = a fault overlapping a healthy request in " +
 	"time (measured); distinct = SHA-256 of the canonical case"
@@ -39,7 +43,7 @@ var faultKinds = []string{
 	"backend-short-length", "backend-reset-mid-body", "backend-huge-header", "backend-1xx-flood",
 	"upload-5xx-1", "upload-5xx-3", "upload-reset",
 	"shim-open-garbage", "shim-data-malformed", "shim-data-wrong-type", "shim-data-unknown-id", "shim-poll-unknown-id", "shim-poll-malformed",
-	"shim-close-unknown-id", "shim-close-wrong-type", "shim-data-huge", "shim-open-unreachable-path",
+	"shim-close-unknown-id", "shim-close-wrong-type", "shim-data-huge", "shim-open-unreachable-path", "shim-session-odd-messages",
 	"unreachable-backend",
 }
 
@@ -125,6 +129,14 @@ func getRig(t vh.TB) *rig {
 		r.mu.Unlock()
 		if s != nil {
 			return s(rq, c)
+		}
+		if key := rq.Values("Sec-WebSocket-Key"); len(key) > 0 && strings.HasPrefix(rq.Target, "/ws/") {
+			// a websocket handshake of a shim session: accept it and hold the connection
+			h := sha1.Sum([]byte(key[0] + "258EAFA5-E914-47DA-95CA-C5AB0DC85B11"))
+			fmt.Fprintf(c, "HTTP/1.1 101 Switching Protocols\r\nUpgrade: websocket\r\nConnection: Upgrade\r\nSec-WebSocket-Accept: %s\r\n\r\n", base64.StdEncoding.EncodeToString(h[:]))
+			c.SetReadDeadline(time.Now().Add(20 * time.Second))
+			io.Copy(io.Discard, c)
+			return false
 		}
 		c.Write([]byte("HTTP/1.1 200 OK\r\nContent-Length: 2\r\n\r\nok"))
 		return true
@@ -356,6 +368,32 @@ func (r *rig) runFault(kind, tok string) error {
 			}
 			return fmt.Errorf("backend unreachable: the client received status %d instead of 502", code)
 		}
+		return nil
+	case kind == "shim-session-odd-messages":
+		// a real shim session, then data posts whose messages have odd shapes, then close
+		open := r.fp.Submit(id+"-open", "", "POST", []byte(post("open", "ws://c07.example/ws/"+tok)))
+		defer r.fp.Forget(id + "-open")
+		up := open.Wait(5 * time.Second)
+		sid := ""
+		if up != nil && up.Resp != nil && up.Resp.StatusCode == 200 {
+			var sm struct {
+				ID string `json:"id"`
+			}
+			json.Unmarshal(up.Body, &sm)
+			sid = sm.ID
+		}
+		if sid == "" {
+			return nil
+		}
+		for k, msg := range []string{`[]`, `[42]`, `["YQ==","Yg=="]`, `null`, `{"a":[1]}`, `[[]]`, `[""]`, `"plain"`, `["%%%"]`} {
+			sub := fmt.Sprintf("%s-d%d", id, k)
+			q := r.fp.Submit(sub, "", "POST", []byte(post("data", `[{"id":"`+sid+`","msg":`+msg+`}]`)))
+			q.Wait(3 * time.Second)
+			r.fp.Forget(sub)
+		}
+		cq := r.fp.Submit(id+"-close", "", "POST", []byte(post("close", `{"id":"`+sid+`"}`)))
+		cq.Wait(3 * time.Second)
+		r.fp.Forget(id + "-close")
 		return nil
 	case kind == "shim-open-garbage":
 		wire = post("open", "://\x7f not a url at all %zz")
